@@ -26,84 +26,83 @@ theorem src_taglist_step (h : TagList_get_html_string_available = true) (hn : no
   first
   | exact absurd h (by decide)
   | skip
-  rw [TagList_get_html_string]
-  simp only [ok_bind, pure_eq_ok, truthy_bool]
-  have hiter : pyIter (PVal.obj "TagList" [("data", PVal.list (embNodes ks))]) = .ok (ks.toList.map embNode) := by
-    simp [pyIter, embNodes_toList]
-  rw [hiter]
-  simp only [ok_bind]
-  have hnt := fun s => src_normalize_text hn he hs cfg ht ha s false
-  simp only [Bool.false_eq_true, if_false] at hnt
-  refine child_loop cfg ks i eol aw esc _ ?step
-  case step =>
-    intro c hc s b hR
-    obtain ⟨s1, s2, s3, s4, s5⟩ := s
-    obtain ⟨acc, first, prev⟩ := b
-    obtain ⟨h1, h2, h3⟩ := hR
-    simp only at h1 h2 h3
-    subst h1 h2 h3
-    cases c with
-    | mnode n =>
-      rw [kidStep_mnode]
-      simp [embNode, isInstance, classBases, Sim, RKS]
-      exact rks_triv _ _ _
-    | dep d hh hd =>
-      rw [kidStep_dep]
-      simp [embNode, isInstance, classBases, Sim, RKS]
-      exact rks_triv _ _ _
-    | text t =>
-      rw [kidStep_text]
-      cases first <;> cases prev <;> cases esc <;>
-        simp [embNode, isInstance, builtinClasses, Sim, RKS, leafStep, pyOr, pyAnd, pyGetAttr, pyMul_indent, pyAdd_str, hnt] <;> exact rks_triv _ _ _
-    | html t =>
-      rw [kidStep_html]
-      cases first <;> cases prev <;>
-        simp [embNode, isInstance, builtinClasses, classBases, Sim, RKS, leafStep, pyOr, pyAnd, pyGetAttr, pyMul_indent, pyAdd_str,
-          pyReprHtml, fieldGet?] <;> exact rks_triv _ _ _
-    | robj t =>
-      rw [kidStep_robj]
-      cases first <;> cases prev <;>
-        simp [embNode, isInstance, builtinClasses, classBases, Sim, RKS, leafStep, pyOr, pyAnd, pyGetAttr, pyMul_indent, pyAdd_str,
-          pyReprHtml, fieldGet?] <;> exact rks_triv _ _ _
-    | tobjL rh cc =>
-      cases rh with
-      | none =>
-        rw [kidStep_tobjL_none]
-        cases first <;> cases prev <;> simp [embNode, isInstance, builtinClasses, classBases, Sim, pyOr, pyAnd, pyGetAttr, fieldGet?, embErr, pyAdd_str]
-      | some t =>
-        rw [kidStep_tobjL_some]
+  all_goals (
+    rw [TagList_get_html_string]
+    simp only [ok_bind, pure_eq_ok, truthy_bool]
+    have hiter : pyIter (PVal.obj "TagList" [("data", PVal.list (embNodes ks))]) = .ok (ks.toList.map embNode) := by
+      simp [pyIter, embNodes_toList]
+    rw [hiter]
+    simp only [ok_bind]
+    have hnt := fun s => src_normalize_text hn he hs cfg ht ha s false
+    simp only [Bool.false_eq_true, if_false] at hnt
+    refine child_loop cfg ks i eol aw esc _ _ ?step
+    case step =>
+      intro c hc s b hR
+      obtain ⟨s1, s2, s3, s4⟩ := s
+      obtain ⟨acc, first, prev⟩ := b
+      obtain ⟨h1, h2, h3⟩ := hR
+      simp only at h1 h2 h3
+      subst h1 h2 h3
+      cases c with
+      | mnode n =>
+        rw [kidStep_mnode]
+        exact Sim.yield_ok _ (by simp [embNode, isInstance, classBases, RKS]; rfl) (by simp [RKS, leafStep])
+      | dep d hh hd =>
+        rw [kidStep_dep]
+        exact Sim.yield_ok _ (by simp [embNode, isInstance, classBases, RKS]; rfl) (by simp [RKS, leafStep])
+      | text t =>
+        rw [kidStep_text]
+        cases first <;> cases prev <;> cases esc <;>
+          exact Sim.yield_ok _ (by simp [embNode, isInstance, builtinClasses, pyOr, pyAnd, pyGetAttr, pyMul_indent, pyAdd_str, hnt]; rfl) (by simp [RKS, leafStep])
+      | html t =>
+        rw [kidStep_html]
         cases first <;> cases prev <;>
-          simp [embNode, isInstance, builtinClasses, classBases, Sim, RKS, leafStep, pyOr, pyAnd, pyGetAttr, pyMul_indent, pyAdd_str,
-            pyReprHtml, fieldGet?] <;> exact rks_triv _ _ _
-    | tobj1 rh cc =>
-      cases rh with
-      | none =>
-        rw [kidStep_tobj1_none]
-        cases first <;> cases prev <;> simp [embNode, isInstance, builtinClasses, classBases, Sim, pyOr, pyAnd, pyGetAttr, fieldGet?, embErr, pyAdd_str]
-      | some t =>
-        rw [kidStep_tobj1_some]
+          exact Sim.yield_ok _ (by simp [embNode, isInstance, builtinClasses, classBases, pyOr, pyAnd, pyGetAttr, pyMul_indent, pyAdd_str,
+            pyReprHtml, fieldGet?]; rfl) (by simp [RKS, leafStep])
+      | robj t =>
+        rw [kidStep_robj]
         cases first <;> cases prev <;>
-          simp [embNode, isInstance, builtinClasses, classBases, Sim, RKS, leafStep, pyOr, pyAnd, pyGetAttr, pyMul_indent, pyAdd_str,
-            pyReprHtml, fieldGet?] <;> exact rks_triv _ _ _
-    | tag nm ws at' kk =>
-      rw [kidStep_tag]
-      have hp := HP _ hc rfl
-      have hp0 : Tag_get_html_string (globalsOf cfg) fuel (embNode (Node.tag nm ws at' kk)) (PVal.int 0) (PVal.str [])
-          = if (Node.tag nm ws at' kk).hasTobj then .error .runtimeError
-            else .ok (.str ((Node.tag nm ws at' kk).render cfg 0 [])) := hp 0 []
-      have hcls : pyClassOf (embNode (Node.tag nm ws at' kk)) = "Tag" := rfl
-      have hws : pyGetAttr (embNode (Node.tag nm ws at' kk)) "add_ws" = .ok (.bool ws) := by
-        simp [embNode, pyGetAttr, fieldGet?]
-      have hit : isInstance (embNode (Node.tag nm ws at' kk)) ["Tag"] = true := by simp [embNode, isInstance]
-      have him : isInstance (embNode (Node.tag nm ws at' kk)) ["MetadataNode"] = false := by
-        simp [embNode, isInstance, classBases]
-      by_cases hto : (Node.tag nm ws at' kk).hasTobj = true
-      · simp only [hto, if_true] at hp hp0 ⊢
-        cases first <;> cases prev <;> cases ws <;>
-          simp [Sim, embErr, hp, hp0, hcls, hws, hit, him, pyOr, pyAnd, pyAdd_str]
-      · simp only [hto, Bool.false_eq_true, if_false] at hp hp0 ⊢
-        cases first <;> cases prev <;> cases ws <;>
-          simp [Sim, RKS, hp, hp0, hcls, hws, hit, him, pyOr, pyAnd, pyAdd_str] <;> exact rks_triv _ _ _
+          exact Sim.yield_ok _ (by simp [embNode, isInstance, builtinClasses, classBases, pyOr, pyAnd, pyGetAttr, pyMul_indent, pyAdd_str,
+            pyReprHtml, fieldGet?]; rfl) (by simp [RKS, leafStep])
+      | tobjL rh cc =>
+        cases rh with
+        | none =>
+          rw [kidStep_tobjL_none]
+          cases first <;> cases prev <;> simp [embNode, isInstance, builtinClasses, classBases, Sim, pyOr, pyAnd, pyGetAttr, fieldGet?, embErr, pyAdd_str]
+        | some t =>
+          rw [kidStep_tobjL_some]
+          cases first <;> cases prev <;>
+            exact Sim.yield_ok _ (by simp [embNode, isInstance, builtinClasses, classBases, pyOr, pyAnd, pyGetAttr, pyMul_indent, pyAdd_str,
+              pyReprHtml, fieldGet?]; rfl) (by simp [RKS, leafStep])
+      | tobj1 rh cc =>
+        cases rh with
+        | none =>
+          rw [kidStep_tobj1_none]
+          cases first <;> cases prev <;> simp [embNode, isInstance, builtinClasses, classBases, Sim, pyOr, pyAnd, pyGetAttr, fieldGet?, embErr, pyAdd_str]
+        | some t =>
+          rw [kidStep_tobj1_some]
+          cases first <;> cases prev <;>
+            exact Sim.yield_ok _ (by simp [embNode, isInstance, builtinClasses, classBases, pyOr, pyAnd, pyGetAttr, pyMul_indent, pyAdd_str,
+              pyReprHtml, fieldGet?]; rfl) (by simp [RKS, leafStep])
+      | tag nm ws at' kk =>
+        rw [kidStep_tag]
+        have hp := HP _ hc rfl
+        have hp0 : Tag_get_html_string (globalsOf cfg) fuel (embNode (Node.tag nm ws at' kk)) (PVal.int 0) (PVal.str [])
+            = if (Node.tag nm ws at' kk).hasTobj then .error .runtimeError
+              else .ok (.str ((Node.tag nm ws at' kk).render cfg 0 [])) := hp 0 []
+        have hcls : pyClassOf (embNode (Node.tag nm ws at' kk)) = "Tag" := rfl
+        have hws : pyGetAttr (embNode (Node.tag nm ws at' kk)) "add_ws" = .ok (.bool ws) := by
+          simp [embNode, pyGetAttr, fieldGet?]
+        have hit : isInstance (embNode (Node.tag nm ws at' kk)) ["Tag"] = true := by simp [embNode, isInstance]
+        have him : isInstance (embNode (Node.tag nm ws at' kk)) ["MetadataNode"] = false := by
+          simp [embNode, isInstance, classBases]
+        by_cases hto : (Node.tag nm ws at' kk).hasTobj = true
+        · simp only [hto, if_true] at hp hp0 ⊢
+          cases first <;> cases prev <;> cases ws <;>
+            simp [Sim, embErr, hp, hp0, hcls, hws, hit, him, pyOr, pyAnd, pyAdd_str]
+        · simp only [hto, Bool.false_eq_true, if_false] at hp hp0 ⊢
+          cases first <;> cases prev <;> cases ws <;>
+            exact Sim.yield_ok _ (by simp [hp, hp0, hcls, hws, hit, him, pyOr, pyAnd, pyAdd_str]; rfl) (by simp [RKS, leafStep]))
 
 /-- a tag: given the tie for its child list at this fuel -/
 theorem src_tag_step (h : Tag_get_html_string_available = true) (hn : normalize_text_available = true)
@@ -118,56 +117,57 @@ theorem src_tag_step (h : Tag_get_html_string_available = true) (hn : normalize_
   first
   | exact absurd h (by decide)
   | skip
-  rw [Tag_get_html_string]
-  obtain ⟨g1, g2, g3, g4⟩ := getattr_tag nm ws at' kk
-  have hesc := fun x => src_html_escape he cfg ht ha x true
-  simp only [if_true] at hesc
-  have hntT := fun s => src_normalize_text hn he hs cfg ht ha s false
-  have hntH := fun s => src_normalize_text hn he hs cfg ht ha s true
-  simp only [Bool.false_eq_true, if_false, if_true] at hntT hntH
-  simp only [ok_bind, pure_eq_ok, truthy_bool, g1, g2, g3, g4, pyMul_indent, pyAdd_str, embAttrs, pyItems_dict, pyIter_list,
-    List.map_map]
-  refine attr_loop_k cfg at' (indentStr i ++ ['<'] ++ nm) _ (by simp [Function.comp_def]) _ ?hA _ _ ?hk
-  case hA =>
-    intro kv _ s b hs
-    obtain ⟨k, v⟩ := kv
-    obtain ⟨s1, s2, s3⟩ := s
-    simp only at hs; subst hs
-    cases v <;> simp [isInstance, builtinClasses, hesc, pyConcat, attrText, emitAttrVal, pyAdd_str]
-  case hk =>
-    intro s hs
-    obtain ⟨s1, s2, s3⟩ := s
-    simp only at hs; subst hs
-    simp only [pyIter_taglist, embNodes_toList, ok_bind]
-    rw [vis_loop kk _ (by intro c _ s; rw [isMeta_emb]; cases c.isMeta <;> rfl)]
-    simp only [ok_bind, pyLen, pure_eq_ok, List.length_map, pyIn_names, globalsOf_void, globalsOf_noesc, pyAdd_str]
-    have hvis : (Node.tag nm ws at' kk).hasTobj = (if kk.visible.isEmpty then false else match inlineChild? kk.visible with
-        | some _ => false
-        | none => kk.hasTobjKids) := by rw [Node.hasTobj]; rfl
-    rw [hvis, Node.render]
-    cases hv : kk.visible with
-    | nil =>
-      by_cases hvoid : nm ∈ cfg.void <;>
-        simp [hv, hvoid, pyEq, pyAnd, openTag, closeTag, List.append_assoc]
-    | cons c rest =>
-      have hq := HQ (i + 1) eol ws (!cfg.noesc.contains nm)
-      have hi1 : pyAdd (globalsOf cfg) (PVal.int ↑i) (PVal.int 1) = .ok (PVal.int ↑(i + 1)) := by
-        simp [pyAdd, pyAddBase]
-      simp only [embNodes_toList] at hq
-      cases rest with
+  all_goals (
+    rw [Tag_get_html_string]
+    obtain ⟨g1, g2, g3, g4⟩ := getattr_tag nm ws at' kk
+    have hesc := fun x => src_html_escape he cfg ht ha x true
+    simp only [if_true] at hesc
+    have hntT := fun s => src_normalize_text hn he hs cfg ht ha s false
+    have hntH := fun s => src_normalize_text hn he hs cfg ht ha s true
+    simp only [Bool.false_eq_true, if_false, if_true] at hntT hntH
+    simp only [ok_bind, pure_eq_ok, truthy_bool, g1, g2, g3, g4, pyMul_indent, pyAdd_str, embAttrs, pyItems_dict, pyIter_list,
+      List.map_map]
+    refine attr_loop_k cfg at' (indentStr i ++ ['<'] ++ nm) _ _ (by simp [Function.comp_def]) _ ?hA _ _ ?hk
+    case hA =>
+      intro kv _ s b hs
+      obtain ⟨k, v⟩ := kv
+      obtain ⟨s1, s2⟩ := s
+      simp only at hs; subst hs
+      cases v <;> simp [isInstance, builtinClasses, hesc, pyConcat, attrText, emitAttrVal, pyAdd_str]
+    case hk =>
+      intro s hs
+      obtain ⟨s1, s2⟩ := s
+      simp only at hs; subst hs
+      simp only [pyIter_taglist, embNodes_toList, ok_bind]
+      rw [vis_loop kk _ (by intro c _ s; rw [isMeta_emb]; cases c.isMeta <;> rfl)]
+      simp only [ok_bind, pyLen, pure_eq_ok, List.length_map, pyIn_names, globalsOf_void, globalsOf_noesc, pyAdd_str]
+      have hvis : (Node.tag nm ws at' kk).hasTobj = (if kk.visible.isEmpty then false else match inlineChild? kk.visible with
+          | some _ => false
+          | none => kk.hasTobjKids) := by rw [Node.hasTobj]; rfl
+      rw [hvis, Node.render]
+      cases hv : kk.visible with
       | nil =>
-        cases c <;> cases ws <;> by_cases hne : nm ∈ cfg.noesc <;> by_cases hk : kk.hasTobjKids = true <;>
-          simp [hne, hk] at hq <;>
-          simp [hv, pyEq, pyAnd, openTag, closeTag, List.append_assoc, inlineChild?, embNode, isInstance, builtinClasses, classBases,
-            pyGetItem, inlineText, hne, hntT, hntH, pyStr, escText, hi1, hq, hk, pyClassOf, renderList, embNodes_toList, pyAdd_str]
-      | cons c2 r2 =>
-        have hlen0 : ¬ ((r2.length : Int) + 1 + 1 = 0) := by omega
-        have hlen : ¬ ((r2.length : Int) + 1 + 1 = 1) := by omega
-        have hin : inlineChild? (c :: c2 :: r2) = none := by cases c <;> rfl
-        cases ws <;> by_cases hne : nm ∈ cfg.noesc <;> by_cases hk : kk.hasTobjKids = true <;>
-          simp [hne, hk] at hq <;>
-          simp [hv, pyEq, pyAnd, openTag, closeTag, List.append_assoc, hin, hlen, hlen0,
-            hne, hi1, hq, hk, pyClassOf, renderList, embNodes_toList, pyAdd_str]
+        by_cases hvoid : nm ∈ cfg.void <;>
+          simp [hv, hvoid, pyEq, pyAnd, openTag, closeTag, List.append_assoc]
+      | cons c rest =>
+        have hq := HQ (i + 1) eol ws (!cfg.noesc.contains nm)
+        have hi1 : pyAdd (globalsOf cfg) (PVal.int ↑i) (PVal.int 1) = .ok (PVal.int ↑(i + 1)) := by
+          simp [pyAdd, pyAddBase]
+        simp only [embNodes_toList] at hq
+        cases rest with
+        | nil =>
+          cases c <;> cases ws <;> by_cases hne : nm ∈ cfg.noesc <;> by_cases hk : kk.hasTobjKids = true <;>
+            simp [hne, hk] at hq <;>
+            simp [hv, pyEq, pyAnd, openTag, closeTag, List.append_assoc, inlineChild?, embNode, isInstance, builtinClasses, classBases,
+              pyGetItem, inlineText, hne, hntT, hntH, pyStr, escText, hi1, hq, hk, pyClassOf, renderList, embNodes_toList, pyAdd_str]
+        | cons c2 r2 =>
+          have hlen0 : ¬ ((r2.length : Int) + 1 + 1 = 0) := by omega
+          have hlen : ¬ ((r2.length : Int) + 1 + 1 = 1) := by omega
+          have hin : inlineChild? (c :: c2 :: r2) = none := by cases c <;> rfl
+          cases ws <;> by_cases hne : nm ∈ cfg.noesc <;> by_cases hk : kk.hasTobjKids = true <;>
+            simp [hne, hk] at hq <;>
+            simp [hv, pyEq, pyAnd, openTag, closeTag, List.append_assoc, hin, hlen, hlen0,
+              hne, hi1, hq, hk, pyClassOf, renderList, embNodes_toList, pyAdd_str])
 
 
 /-- what `get_html_string` returns according to the model -/
